@@ -98,10 +98,43 @@ def build_actions(hist, rng, env, rich=None, admit=None, force=None, twin_reject
     """Model history -> concrete script actions (real targets, real values); force: frame id -> target name."""
     acts, chosen = [], {}
 
+    pool, pending, held = [], [], {}      # held: id(container) -> frame ids that received it as an argument and have not returned
+
+    def retyped(x):
+        """Another value of ANOTHER class (what an in-place update of a slot may put there)."""
+        return "s" if isinstance(x, (int, float)) and not isinstance(x, bool) else 1 if isinstance(x, str) else 1.5 if x is None else None
+
     def val(tok):
         if rich is not None and tok == "int":
-            return absmodel.real_value(rng.choice(rich))
+            free = [o for o in pool if not held.get(id(o))]
+            if free and rng.random() < 0.3:
+                # the SAME container object as in an earlier action, its slots re-typed in place since (same length).  Never an
+                # object that is an argument of a frame still alive (a generator created but not yet entered reads its
+                # parameters at first entry: "when the call started" would be ambiguous)
+                o = rng.choice(free)
+                try:
+                    if isinstance(o, list):
+                        content = [retyped(x) for x in o]
+                    elif isinstance(o, dict):
+                        content = {k: retyped(v) for k, v in o.items()}
+                    else:
+                        content = {("k%d" % i) if not isinstance(x, str) else i for i, x in enumerate(o)}
+                    if len(content) == len(o):
+                        pending.append((o, content))
+                        return o
+                except TypeError:
+                    pass
+            v = absmodel.real_value(rng.choice(rich))
+            if type(v) in (list, dict, set) and len(v) > 0:
+                pool.append(v)
+            return v
         return TOK[tok]
+
+    def with_pre(act):
+        if pending:
+            act["pre"] = pending.pop()
+            del pending[:]
+        return act
 
     for h in hist:
         op = h["op"]
@@ -124,15 +157,20 @@ def build_actions(hist, rng, env, rich=None, admit=None, force=None, twin_reject
             kind = {"F": "plain", "U": "plain", "G": "gen", "C": "coro", "A": "agen"}[h["f"]]
             wanted = t["wanted"] and (admit is None or t["sigfunc"]().__code__.co_qualname in admit)
             wanted = wanted and not (twin_rejected and t["name"].startswith("twin "))
-            acts.append({"op": op, "f": t["canon"], "kind": kind, "wanted": wanted, "target": t["name"],
-                         "args": args, "kwargs": kwargs, "sigfunc": t["sigfunc"], "selfargs": t["selfargs_f"],
-                         "catch": h["catch"], "draw": h["draw"], "id": h["id"]})
+            for x in list(args) + list(kwargs.values()):
+                if type(x) in (list, dict, set):
+                    held.setdefault(id(x), set()).add(h["id"])
+            acts.append(with_pre({"op": op, "f": t["canon"], "kind": kind, "wanted": wanted, "target": t["name"],
+                                  "args": args, "kwargs": kwargs, "sigfunc": t["sigfunc"], "selfargs": t["selfargs_f"],
+                                  "catch": h["catch"], "draw": h["draw"], "id": h["id"]}))
         elif op in ("Resume", "Throw", "Drop", "Delegate"):
             acts.append({"op": op, "id": h["id"], "catch": h["catch"], "draw": h["draw"]})
         elif op == "Return":
-            acts.append({"op": op, "id": h["id"], "how": h["f"], "val": val(h["v"])})
+            acts.append(with_pre({"op": op, "id": h["id"], "how": h["f"], "val": val(h["v"])}))
+            for fr in held.values():       # (released only by the frame's own Return: conservative)
+                fr.discard(h["id"])
         elif op in ("Yield", "Rebind"):
-            acts.append({"op": op, "id": h["id"], "val": val(h["v"])})
+            acts.append(with_pre({"op": op, "id": h["id"], "val": val(h["v"])}))
         elif op in ("Await", "Raise"):
             acts.append({"op": op, "id": h["id"]})
         else:
